@@ -2,7 +2,7 @@
    Model: Pd/Layout.v (both configuration paths, window bookkeeping, group start addresses, the
    device-side meaning of an FMMU).  Statements are for the Debug integer mode, where a run that
    does not panic has passed every width check; c08_release carries them to Release. *)
-From EC Require Import Base.Prelude Base.Bytes Pd.Layout Pd.LayoutProofs Wire.Layout Gen.SrcLayouts Net.Commute Net.CycleAll.
+From EC Require Import Base.Prelude Base.Bytes Pd.Layout Pd.LayoutProofs Wire.Layout Gen.SrcLayouts Net.Commute Net.CycleAll Pd.Mailbox.
 Local Open Scope N_scope.
 
 (* windows of a group that came up: inputs of all devices first, then all outputs, consecutive and
@@ -197,3 +197,19 @@ Theorem c08_group_cycle_any : forall start max dvs g ms image,
      nth t out 0 = nth t image 0).
 Proof. exact group_cycle_any. Qed.
 Print Assumptions c08_group_cycle_any.
+
+(* before that, during INIT -> PRE-OP (configure_mailbox_sms, Pd/Mailbox.v): only mailbox sync
+   managers are programmed, each with its EEPROM start address and control byte and the mailbox
+   length of its direction; and a SubDevice counts as a CoE device (its PDOs are then asked for over
+   CoE) only if it announces CoE and has a read mailbox of non-zero length to answer in *)
+Theorem c08_mailbox_registers : forall m sms j r, In (j, r) (mbx_regs m sms) ->
+  exists mb sm, m = Some mb /\ nth_error sms j = Some sm /\ r_start r = sm_start sm /\ r_ctl r = sm_ctl sm /\
+    ((sm_usage sm = 1 /\ r_len r = m_rx_size mb) \/ (sm_usage sm = 2 /\ r_len r = m_tx_size mb)).
+Proof. exact mailbox_registers. Qed.
+Print Assumptions c08_mailbox_registers.
+
+Theorem c08_coe_needs_mailbox : forall m sms, has_coe m sms = true ->
+  exists mb, m = Some mb /\ N.testbit (m_protocols mb) 2 = true /\ 0 < m_tx_size mb /\
+    exists sm, In sm sms /\ sm_usage sm = 2.
+Proof. exact coe_needs_mailbox. Qed.
+Print Assumptions c08_coe_needs_mailbox.
